@@ -13,6 +13,7 @@ Deciding obligations:
     programs are enclosed by the verified multi-precision evaluator at sampled states and must agree to 1e-12 relative
     (disjoint enclosures prove a difference at that state), plus a plain-f64 oracle on more states.
 """
+import json
 import math
 import os
 from fractions import Fraction
@@ -59,6 +60,17 @@ def encl(v):
 def run(ctx):
     only = ["--only", os.environ["FV_ONLY"]] if os.environ.get("FV_ONLY") else []
     impl = V.run_harness("c09", ctx, extra=only)
+    # the plan of HenryIdxC09.v (solvent indices, write-back codes, selected results) for every zero pattern of 2..4 components,
+    # evaluated by coqc from the model's definitions; replayed on the public API below (correspondence of that model with the code)
+    pats = [[(m >> i) & 1 for i in range(n)] for n in (2, 3, 4) for m in range(1, 2 ** n - 1)]
+    with open(os.path.join(ctx.gen, "henry_plan.v"), "w") as f:
+        f.write("From Coq Require Import List Arith String.\nImport ListNotations.\nFrom FeosVerif Require Import HenryIdxC09.\n"
+                "(* a zero pattern (1 = solute, mole fraction exactly 0) as a mole-fraction vector of tokens: 0 for a solute, i+1 for the solvent at position i *)\n"
+                "Definition pat_x (p : list nat) : list nat := map (fun q => if Nat.eqb (snd q) 1 then 0 else S (fst q)) (combine (seq 0 (List.length p)) p).\n"
+                "Definition plan (p : list nat) :=\n  let x := pat_x p in let idx := solvent_idx (Nat.eqb 0) x in\n"
+                "  (idx, scatter x idx (map (fun k => 100 + k) (seq 0 (List.length idx))), select_solutes (Nat.eqb 0) (seq 0 (List.length p)) x).\n"
+                "Eval vm_compute in (\"PLAN\"%%string, map (fun p => (p, plan p)) [%s]).\n"
+                % "; ".join("[" + "; ".join(str(b) for b in p) + "]" for p in pats))
     gen_files = sorted(os.path.join(ctx.gen, f) for f in os.listdir(ctx.gen) if f.endswith(".v"))
     lib = V.check_props(ctx, PROP_FILES, gen_files)
     res = V.coqc_many(gen_files, ctx, timeout=2400)
@@ -197,6 +209,37 @@ def run(ctx):
             samples.append({"pair": name, "instructions": [p["ninstr_a"], p["ninstr_b"]], "syntactically_identical": same,
                             "kind": p["kind"], "states_TVN": p["states"][0] if p["states"] else None,
                             "A_enclosures": [encl(ea0[0]), encl(eb0[0])] if ea0 and eb0 else None})
+    # --- correspondence of HenryIdxC09.v with State::henrys_law_constant
+    hm = {"comparisons": 0, "failures": [], "both_failed_to_converge": 0}
+    rp = res.get(os.path.join(ctx.gen, "henry_plan.v"))
+    plan_rows = V.tagged(rp["out"]).get("PLAN") if rp and rp["rc"] == 0 else None
+    obligations += 1
+    if not plan_rows:
+        V.violation(ctx, "the plan of the Henry index model could not be evaluated: %s" % (V.coq_error(rp["out"]) if rp else "no output"),
+                    {"broken": "gen/C09/henry_plan.v", "coq_error": V.coq_error(rp["out"]) if rp else None}, found_input=False)
+    else:
+        plan = {}
+        for (pat, (idx, vap, sel)) in plan_rows[0]:
+            plan["".join(str(b) for b in pat)] = {"idx": list(idx), "vapor": list(vap), "solutes": list(sel)}
+        sub = os.path.join(ctx.gen, "henry")
+        os.makedirs(sub, exist_ok=True)
+        pj = os.path.join(sub, "plan.json")
+        with open(pj, "w") as f:
+            json.dump(plan, f, indent=1, sort_keys=True)
+        rc, out, _ = V.sh([os.path.join(V.TARGET, "release", "c09"), "--out", sub, "--tier", ctx.tier, "--seed", str(ctx.seed), "--plan", pj],
+                          cwd=V.VERIF, timeout=1800)
+        if rc != 0:
+            raise V.InfraError("harness c09 --plan exited %d:\n%s" % (rc, out[-2000:]))
+        hm = json.load(open(os.path.join(sub, "impl.json")))["henry_model"]
+        if hm["failures"]:
+            f0 = hm["failures"][0]
+            V.violation(ctx, "State::henrys_law_constant does not follow the index model HenryIdxC09.v (solvent indices / write-back of the solvent "
+                             "vapour composition / selection of the solutes): %s order %s, mole fractions %s: returned %s, the model's plan replayed on "
+                             "the public API gives %s" % (f0["family"], f0["component_order"], f0["molefracs"], f0["henrys_law_constant"], f0["model_plan_replayed"]),
+                        {"broken": "correspondence: HenryIdxC09.v (plan evaluated by coqc) vs State::henrys_law_constant", "failing": hm["failures"][:6]},
+                        found_input=True)
+        elif hm["comparisons"] > 0:
+            discharged += 1
     # --- quantities the mixture algorithms derive for pure components / solvents (labelled tests on the public API)
     der = impl.get("derived", {"comparisons": 0, "failures": []})
     seen = set()
@@ -212,6 +255,12 @@ def run(ctx):
     cov = {
         "obligations": obligations, "discharged": discharged,
         "derived_quantity_comparisons": der["comparisons"],
+        "henry_index_model_correspondence": {"zero_patterns": 22, "comparisons": hm["comparisons"],
+                                             "both_sides_failed_to_converge": hm.get("both_failed_to_converge", 0),
+                                             "rule": "plan (solvent_idx, scatter, select_solutes of HenryIdxC09.v) evaluated by coqc for all 22 zero patterns of 2-4 "
+                                                     "components; replayed on the public API (subset, bubble point / pure VLE, liquid and vapour state, ln phi) for "
+                                                     "Peng-Robinson (2 and 3 components, several orders) and PC-SAFT (4 components, 3 orders); must reproduce "
+                                                     "henrys_law_constant to 1e-12"},
         "derived_quantities": "Henry constants (mixed and pure solvent, every component order, vs the binary model built directly), "
                               "PhaseEquilibrium::vapor_pressure, State::critical_point_pure, ln_phi_pure_liquid, "
                               "ln_symmetric_activity_coefficient for all 6 orders of three components (Peng-Robinson, PC-SAFT; associating "
